@@ -89,6 +89,14 @@ def gen_plan(rng, run_index, tier, opts):
         if form != "date" and rng.random() < 0.35 and now >= 2:
             # the property speaks of all window positions: fix steps [lo, now) only
             tk["lo"] = rng.randint(1, now - 1)
+        if form != "date" and rng.random() < 0.25 and now >= 3:
+            # ... including windows with gaps ("peak hours already traded"): an explicit set of steps
+            lo_ = tk.get("lo", 0)
+            cand = list(range(lo_, now))
+            keep = sorted(rng.sample(cand, rng.randint(1, max(1, len(cand) - 1))))
+            if rng.random() < 0.5 and T - now >= 2:
+                keep.append(rng.randint(now + 1, T - 1))   # and an isolated later step
+            tk["steps"] = keep
         if form == "date":
             tp = gi.timepoints[now - 1]
             nxt = gi.timepoints[now]
@@ -96,7 +104,8 @@ def gen_plan(rng, run_index, tier, opts):
             wall = t.tz_convert("UTC").tz_localize(None) if t.tzinfo is not None else t
             tk["date"] = {"$t": rng.choice(["ts", "datetime"]), "v": specs.iso(wall), "tz": ("UTC" if tz is not None else None)}
             if tz is not None:
-                tk["date_tz"] = tz
+                # the date may be given in the grid's zone or in another one (same instant)
+                tk["date_tz"] = rng.choice([tz, tz, "UTC", "Asia/Tokyo"])
         fr = rng.random()
         if fr < 0.12:
             tk["solver_fault"] = "raise"
@@ -111,6 +120,8 @@ def gen_plan(rng, run_index, tier, opts):
             tk["x_source"] = "slp"
         elif xr < 0.3:
             tk["x_source"] = "longer"
+        elif xr < 0.38:
+            tk["x_source"] = "off_bounds"
         ticks.append(tk)
     return {"world": world, "grid": g, "portfolio": P, "curves": curves, "solver": solver, "ticks": ticks,
             "cfg": {"mip": is_mip, "T": T}}
@@ -239,11 +250,13 @@ class Desk:
             if g.timepoints.tz is not None:
                 self.probes["date_form_aware_grid"] += 1
         lo = min(tk.get("lo", 0), max(now - 1, 0)) if tk["form"] != "date" else 0
-        if tk["form"] == "mask":
-            I = np.array([lo <= i < now for i in range(T)], dtype=bool)
-        elif tk["form"] == "list":
-            I = [bool(lo <= i < now) for i in range(T)]
         W = set(range(lo, now))
+        if tk.get("steps") and tk["form"] != "date":
+            W = {int(i) for i in tk["steps"] if 0 <= int(i) < T} or W
+        if tk["form"] == "mask":
+            I = np.array([i in W for i in range(T)], dtype=bool)
+        elif tk["form"] == "list":
+            I = [bool(i in W) for i in range(T)]
         # --- twin: window-less set-up on fresh objects
         tw = specs.Builder(self.w)
         try:
@@ -260,6 +273,13 @@ class Desk:
             x_fix = lo + (hi - lo) * frac
             for i in bool_vars(op_free):
                 x_fix[i] = float(round(x_fix[i]))
+        elif x_kind == "off_bounds":
+            # a previous solution need not respect the *new* bounds (capacities may come from the price table):
+            # the window must still be pinned to it, value for value
+            lo_b, hi_b = np.asarray(op_free.l, float), np.asarray(op_free.u, float)
+            x_fix = x_fix[:n].copy() if len(x_fix) >= n else np.zeros(n)
+            for i in range(0, n, 3):
+                x_fix[i] = hi_b[i] + 0.75 + (i % 5) if (i // 3) % 2 == 0 else lo_b[i] - 1.25 - (i % 4)
         elif x_kind == "longer":
             x_fix = np.hstack([x_fix, np.zeros(3 + k)])
             self.probes["x_from_slp"] += 0
@@ -333,7 +353,10 @@ class Desk:
         fixed[idx[in_w]] = True
         l, u = np.asarray(op.l, float), np.asarray(op.u, float)
         lf, uf = np.asarray(op_free.l, float), np.asarray(op_free.u, float)
-        bad = np.where(fixed & ~((l == x_ref[:n]) & (u == x_ref[:n])))[0]
+        # pinned means l == u == previous value; a deviation far below any solver tolerance (1e-9 relative) is not
+        # held against the code (e.g. clipping a previous value that overshot its bound by rounding noise)
+        ptol = 1e-9 * (1 + np.abs(x_ref[:n]))
+        bad = np.where(fixed & ~((np.abs(l - x_ref[:n]) <= ptol) & (np.abs(u - x_ref[:n]) <= ptol)))[0]
         if len(bad):
             i = int(bad[0])
             self.viol("F1-window-variable-not-pinned", k,
@@ -462,7 +485,7 @@ class Desk:
         if (multi & fixed).any():
             feats.add("multirow")
         cls_sig = ",".join(sorted({name2cls.get(a, "?") for a in set(assets)}))
-        state = "%s|%s|%s|%s|%s|%s|%s" % (tk["form"] + ("/mid" if tk.get("lo") else ""), tk["grid_arg"], tk["feed"], x_kind, tk.get("solver_fault", "-"),
+        state = "%s|%s|%s|%s|%s|%s|%s" % (tk["form"] + ("/gaps" if tk.get("steps") else "/mid" if tk.get("lo") else "") + ("/" + tk["date_tz"] if tk.get("date_tz") else ""), tk["grid_arg"], tk["feed"], x_kind, tk.get("solver_fault", "-"),
                                          "restart" if tk.get("restart") else "-", ",".join(sorted(feats)) or "plain")
         trivial = (not feats) and tk["feed"] == "new" and x_kind == "solution" and not tk.get("solver_fault") and not tk.get("restart")
         self.pairs.add(("T|" if trivial else "N|") + state + "|" + cls_sig)
@@ -517,7 +540,7 @@ def simplify_candidates(plan):
             c["world"]["portfolios"][P]["assets"] = [x for x in assets if x != a]
             yield c
     for i, tk in enumerate(plan["ticks"]):
-        for k in ("solver_fault", "restart", "x_source", "reuse_dict", "lo"):
+        for k in ("solver_fault", "restart", "x_source", "reuse_dict", "lo", "steps"):
             if tk.get(k):
                 c = copy.deepcopy(plan)
                 c["ticks"][i].pop(k)
